@@ -213,3 +213,76 @@ def reader_suffix_table(prog, sl):
             else:
                 table['*'] = variant if '*' not in table or table['*'] == variant else ('conflict', table['*'], variant)
     return h, table, info
+
+
+APPLY = 'libcnb::layer_env::LayerEnv::apply'
+DAPPLY = 'libcnb::layer_env::LayerEnvDelta::apply'
+SCOPE = 'libcnb::layer_env::Scope'
+
+
+def apply_scope_table(prog, sl):
+    """{ScopeVariant: [delta field, ...]} in application order, from LayerEnv::apply"""
+    from .lib.guards import conditions
+    f = prog.fn(APPLY)
+    table = {}
+    info = {}
+    # arm entry blocks of the switch on discriminant(scope)
+    arms = {}
+    for bi, b in enumerate(f.blocks):
+        t = b['t']
+        if t['t'] != 'switch':
+            continue
+        pl = op_place(t['o'])
+        if not pl:
+            continue
+        for d in f.whole_defs(pl[0]):
+            if d[0] == 'stmt' and d[3]['r'] == 'discr' and d[3].get('enum') == SCOPE and d[3]['p'] == [2]:
+                vm = {v: n for v, n in d[3]['variants']}
+                for v, tb in t['targets']:
+                    arms[vm.get(v)] = tb
+    info['arms'] = arms
+    rpo = f._rpo()
+    for variant, tb in arms.items():
+        region = [b for b in range(len(f.blocks)) if f.dominates(tb, b)]
+        items = []
+        for bi in region:
+            for s in f.blocks[bi]['s']:
+                if s[0] == '=' and s[2]['r'] == 'agg' and s[2].get('kind') == 'array':
+                    elems = []
+                    for o in s[2]['ops']:
+                        v = strip(sl.operand(f, o))
+                        elems.append(self_field(f, v) or vstr(v)[:60])
+                    items.append((rpo.index(bi) if bi in rpo else 10 ** 6, 'array', elems))
+            c = f.call_at(bi)
+            if c is not None and c.name == 'std::vec::Vec::<T, A>::push':
+                v = strip(sl.operand(f, c.args[1]))
+                desc = vstr(v)[:80]
+                if v[0] == 'call' and v[1].endswith('::get') and self_field(f, v[2][0]) is not None:
+                    key = strip(v[2][1])
+                    keyok = key[0] == 'field' and key[1][0] == 'variant' and key[1][2] == 'Process'
+                    guard = any(cd.kind == 'variant' and cd.outcome == frozenset({'Some'}) for cd in conditions(f, bi, sl))
+                    desc = '%s[%s]%s' % (self_field(f, v[2][0]), 'scope.process' if keyok else '?', '?' if guard else '!unguarded')
+                items.append((rpo.index(bi) if bi in rpo else 10 ** 6, 'push', [desc]))
+        items.sort(key=lambda x: x[0])
+        seq = []
+        for _, kind, elems in items:
+            seq.extend(elems)
+        table[variant] = seq
+    return f, table, info
+
+
+def behaviour_index_table(prog, sl):
+    """{Variant: rank} from the constant table inside Ord for ModificationBehavior"""
+    cands = [f for f in prog.find(r'^<libcnb::layer_env::ModificationBehavior as std::cmp::Ord>::cmp::')]
+    table = {}
+    fn = None
+    for f in cands:
+        rows = arm_defs(f, 0, sl)
+        t = {}
+        for bi, v, conds in rows:
+            var = [cd for cd in conds if cd.kind == 'variant' and cd.enum == MB]
+            if var and v[0] == 'const' and isinstance(v[1], int) and len(var[-1].outcome) == 1:
+                t[next(iter(var[-1].outcome))] = v[1]
+        if len(t) > len(table):
+            table, fn = t, f
+    return fn, table
